@@ -75,7 +75,8 @@ Proof.
   - apply bind_ok in H as (x & Hx & H). apply bind_ok in H' as (x' & Hx' & H'). inversion H; inversion H'.
     constructor. constructor; [eauto|]. constructor; [constructor|constructor].
   - apply bind_ok in H as (x & Hx & H). apply bind_ok in H' as (x' & Hx' & H'). inversion H; inversion H'. constructor; eauto.
-  - apply bind_ok in H as (x & Hx & H). apply bind_ok in H' as (x' & Hx' & H'). inversion H; inversion H'. apply inst_array; eauto.
+  - destruct n as [|n']; [inversion H; inversion H'; constructor; constructor|].
+    apply bind_ok in H as (x & Hx & H). apply bind_ok in H' as (x' & Hx' & H'). inversion H; inversion H'. apply inst_array; eauto.
   - apply bind_ok in H as (x & Hx & H). apply bind_ok in H' as (x' & Hx' & H'). inversion H; inversion H'. constructor.
     rewrite omap_list_map in Hx'. eapply omap_list_rel; [exact Hx | exact Hx' |].
     rewrite Forall_forall in IH. intros; eapply IH; eassumption.
@@ -118,7 +119,8 @@ Proof.
   - apply bind_ok in H as (x & Hx & H). apply bind_ok in H' as (x' & Hx' & H'). inversion H; inversion H'.
     constructor. constructor; [eauto|]. constructor; [constructor|constructor].
   - apply bind_ok in H as (x & Hx & H). apply bind_ok in H' as (x' & Hx' & H'). inversion H; inversion H'. constructor; eauto.
-  - apply bind_ok in H as (x & Hx & H). apply bind_ok in H' as (x' & Hx' & H'). inversion H; inversion H'. apply inst_array; eauto.
+  - destruct n as [|n']; [inversion H; inversion H'; constructor; constructor|].
+    apply bind_ok in H as (x & Hx & H). apply bind_ok in H' as (x' & Hx' & H'). inversion H; inversion H'. apply inst_array; eauto.
   - apply bind_ok in H as (x & Hx & H). apply bind_ok in H as (y & Hy & H).
     apply bind_ok in H' as (x' & Hx' & H'). apply bind_ok in H' as (y' & Hy' & H'). inversion H; inversion H'. constructor; eauto.
   - eauto.
